@@ -448,8 +448,11 @@ func aggQuery(kind string) []processor.AggQuery {
 }
 
 func fmtAggResult(q *seq.QPR, kind string) string {
-	if kind == "none" || len(q.Aggs) == 0 {
+	if kind == "none" {
 		return ""
+	}
+	if len(q.Aggs) == 0 { // no fraction in range: the async result carries no aggregation slot at all
+		return " agg=[] ne=0"
 	}
 	var parts []string
 	for bin, h := range q.Aggs[0].SamplesByBin {
@@ -553,7 +556,7 @@ func sysChild(phase string) {
 			return
 		}
 	}
-	deadline := time.Now().Add(20 * time.Second)
+	deadline := time.Now().Add(8 * time.Second)
 	var resp fracmanager.FetchSearchResultResponse
 	fetch := func() (r fracmanager.FetchSearchResultResponse, ok bool, pan string) {
 		defer func() {
@@ -643,7 +646,12 @@ func runChild(phase, dir, line string, tmo time.Duration) (sysOut, int, string) 
 		}
 	}
 	se := stderr.String()
-	if len(se) > 600 {
+	if i := strings.Index(se, "panic: "); i >= 0 { // keep the panic message, drop the goroutine dump
+		se = se[i:]
+		if j := strings.Index(se, "\ngoroutine "); j > 0 {
+			se = se[:j]
+		}
+	} else if len(se) > 600 {
 		se = se[len(se)-600:]
 	}
 	return out, code, se
@@ -667,9 +675,13 @@ func genSys(g gen, o vh.Opts) []string {
 		}
 		k := g.r.Range(1, 4)
 		layout := make([][]int, k)
+		dup := k > 1 && g.r.Chance(1, 4)
 		for i := range docs {
 			j := g.r.Intn(k)
 			layout[j] = append(layout[j], i)
+			if dup && g.r.Chance(1, 3) { // the same document delivered to a second fraction (a retried bulk)
+				layout[(j+1)%k] = append(layout[(j+1)%k], i)
+			}
 		}
 		var lay []string
 		for _, idx := range layout {
@@ -733,7 +745,7 @@ func runSys(lines []string, orc *vh.Oracle, rep *vh.Report, o vh.Opts) {
 			}
 		}
 		os.RemoveAll(dir)
-		orc.Case(line, crashed && k > 1, "crashed="+b(crashed), "agg="+m["agg"], fmt.Sprintf("fracs=%d", k), "hist="+b(m["hi"] != "0"))
+		orc.Case(line, crashed && k > 1, "crashed="+b(crashed), "agg="+m["agg"], fmt.Sprintf("fracs=%d", k), "hist="+b(m["hi"] != "0"), "dup="+b(hasDupIdx(m["layout"])))
 		switch {
 		case out.Err == "not-found" && crashed && atoi(m["crash"]) == 1 && m["at"] == "before-rename":
 			// killed before the request itself was persisted: it was never acknowledged, nothing to compare
@@ -746,6 +758,19 @@ func runSys(lines []string, orc *vh.Oracle, rep *vh.Report, o vh.Opts) {
 				What: fmt.Sprintf("async: %s ; sync: %s", out.Async, out.Sync), Replay: []string{line}})
 		}
 	}
+}
+
+func hasDupIdx(layout string) bool {
+	seen := map[string]bool{}
+	for _, grp := range strings.Split(layout, ";") {
+		for _, e := range splitList(grp, ",") {
+			if seen[e] {
+				return true
+			}
+			seen[e] = true
+		}
+	}
+	return false
 }
 
 func lastLine(s string) string {
